@@ -242,13 +242,14 @@ Section Matcher.
     then Ok (gc src dst) else Err e_failed.
 
   (* vertex_rtree::validate_tolerance:
-       distance = Meters.convert(distance_meters, unit);  if distance >= tolerance { Err } else { Ok } *)
+       distance = Meters.convert(distance_meters, unit);  if distance > tolerance { Err } else { Ok }
+     (a nearest vertex exactly AT the tolerance is accepted, as in the edge matcher) *)
   Definition validate_tolerance (src dst : point) (tol : option (N * dist_unit)) : res unit :=
     match tol with
     | None => Ok tt
     | Some (t, u) =>
         do dm <- hav src dst;
-        if leb t (convert_distance N Meters u dm) then Err e_failed else Ok tt
+        if ltb t (convert_distance N Meters u dm) then Err e_failed else Ok tt
     end.
 
   (* edge_rtree::within_tolerance:
